@@ -188,9 +188,13 @@ package lexer
 //@   assigns parser.Parser.parseErrs
 //@ end
 
+// C04: a carriage return followed by a line feed is ONE line break wherever it stands - also as the last two bytes of the
+// text (seed C04-crlf-at-end-of-text-counts-twice: a length guard `<= 2` made the final \r\n two breaks, the EOF token one line too low)
 //@ func (*Lexer).isEnterWrap
 //@   sweep C01
+//@   props C04
 //@   pure
+//@   ensures[C04,crlf-pair-is-recognised-wherever-it-stands] result <==> (len(l.chunk) >= 2 && l.chunk[0] == 13 && l.chunk[1] == 10)
 //@ end
 
 //@ func (*Lexer).isPreComment
